@@ -153,6 +153,7 @@ def der_probe(run, cases, stride):
 
 def check(tier):
     run = Run("C03", tier)
+    run.skip_key = ['t', 'md', 'md2', 'via', 'kw', 'cls', 'pos', 'kind', 'pat', 'cont', 'nested', 'ev']
     res = core.tlc("mc/MC_C03.tla", "mc/MC_C03.cfg", workers=4, coverage=True, timeout=600)
     core.check_coverage(res)
     run.add_tlc(res, "Tagging exhaustive: 4 defaults x 3 keywords x 4 classes x 5 positions x 5 kinds, + 96 automatic-tagging points")
